@@ -4,6 +4,7 @@ import (
 	"flag"
 	"fmt"
 	"os"
+	"runtime/pprof"
 	"sort"
 	"strconv"
 	"strings"
@@ -80,8 +81,15 @@ func cmdRun(args []string) {
 	nocache := fs.Bool("nocache", false, "disable state caching")
 	cross := fs.Bool("crosscheck", false, "cross-check solver verdicts with a second back end")
 	race := fs.Bool("race", false, "race mode")
+	prof := fs.String("cpuprofile", "", "write cpu profile")
+	cexOut := fs.String("cex", "", "write the first counterexample to this file")
 	fs.Parse(args)
 	t0 := time.Now()
+	if *prof != "" {
+		f, _ := os.Create(*prof)
+		pprof.StartCPUProfile(f)
+		defer pprof.StopCPUProfile()
+	}
 	p, err := loadProgram(*repo, *hd)
 	if err != nil {
 		fmt.Fprintln(os.Stderr, "load:", err)
@@ -108,6 +116,10 @@ func cmdRun(args []string) {
 		e.forkSites = map[string]int{}
 	}
 	res := e.runHarness(*h)
+	if *cexOut != "" && len(res.Violations) > 0 {
+		v := res.Violations[0]
+		writeJSON(*cexOut, &CexFile{Property: "adhoc", Harness: *h, Params: e.params, Conc: true, Violation: v, Nondet: v.Nondet, Trail: v.Trail})
+	}
 	if e.forkSites != nil {
 		type kv struct {
 			k string
@@ -138,4 +150,3 @@ func cmdRun(args []string) {
 		fmt.Fprintf(os.Stderr, "  ERROR %s\n", res.Error)
 	}
 }
-
